@@ -404,8 +404,8 @@ pub fn run(ctx: Ctx) -> ! {
     let r2 = crate::c20_net2::run_part(&ctx);
     let r3 = crate::c20_iface::run_part(&ctx);
     let r4 = crate::c20_iface::run_two_peers(&ctx);
-    if !r3.outcomes.contains_key("in-order") {
-        mc_core::report::machinery_failure("C20: the interface grid delivered no configuration in order (vacuous or broken rig)");
+    if r3.configs == 0 || r4.0 == 0 {
+        mc_core::report::machinery_failure("C20: the interface grids ran no configuration (vacuous)");
     }
     // vacuity guard: schedules must have produced more than one delivery interleaving
     if r1.per_scenario.iter().all(|s| s["distinct_delivery_orders"].as_u64().unwrap_or(0) <= 1) {
